@@ -2,14 +2,53 @@ import AdfObdd.ServerProofs
 import AdfObdd.ServerCred
 import AdfObdd.ServerNonint
 import AdfObdd.ServerNonintJ
+import AdfObdd.ServerNonintFull
+import AdfObdd.ServerNonintRsv
 import AdfObdd.ServerMention
 import AdfObdd.ServerCmdProofs
+import AdfObdd.ServerCmdResp
 /-! # C17 — the web service isolates users and protects credentials
 
     Theorems about the executable handler model `ServerM` (AdfObdd/ServerModel.lean), which the
     correspondence runs compare response by response and database by database with the real
     `adf-bdd-server`.  They hold for every instance of the model's parameters (string type, hash
-    scheme, library).  Identity = the account named in the session cookie (DESIGN §5). -/
+    scheme, library).  Identity = the account named in the session cookie (DESIGN §5).
+
+    ## Simplifications of the model / assumptions that are NOT modelled (review 2, item 8)
+
+    * **one generated name instead of ten tries.** `add_adf_problem` draws up to ten random names for a
+      temporary account and for an unnamed problem and takes the first free one (server/src/adf.rs:329-343,
+      386-399); the model's request carries ONE proposal each (`Req.add … fu fp`) and answers
+      `500 noGenName` if it is taken.  A history in which the first of the ten proposals is taken and a
+      later one is free is not representable.
+    * **the ghost proposal `fu` of an authenticated `add` counts as mentioned.** `reqNames (.add … fu _) = [fu]`
+      (ServerProofs.lean:198) although a logged-in `add` never looks at `fu`.  Consequence: `Quiet`,
+      `Disciplined(J)` and `isolation_commands` (`v ∉ names`) exclude some harmless histories (an
+      authenticated `add` whose unused proposal happens to be somebody's name); no theorem becomes
+      wrong, the hypotheses are stronger than necessary there.  `noninterference_full` is not affected:
+      its discipline permits such a proposal (`ghost = true`; `ServerM.stepEv_deghost`: an authenticated
+      `add` does not depend on its proposal).
+    * **`uReplace` answers `some 1` whenever the account exists** (`exec`, ServerModel.lean: the count is
+      "matched").  user.rs:330 tests MongoDB's `modified_count`, which is 0 also when the new document
+      EQUALS the old one (same name, same hash, i.e. same password and same salt), and answers
+      `500 Account could not be updated.`; the model answers 200 there.  The salted-hash statements below
+      quantify over ALL salts, equal ones included, so for "update to the identical record" the modelled
+      status differs from the code's.  With `SaltString::generate` the case has negligible probability;
+      it does not occur in the correspondence runs.
+    * **database failure arms** (every `Err(_) => 500` of user.rs / adf.rs) are not modelled: the
+      database of the model never fails except for the duplicate-key refusal of the unique index.
+    * **`Identity::login` before `update_many`** (user.rs:337/340): on a rename the new cookie is attached
+      and the problems are re-owned afterwards; if `update_many` failed, the answer would be 500 with the
+      account renamed, the cookie set and the problems still under the old name.  Not representable (no
+      failure arm).
+    * **half-deleted account** (user.rs:119-146): `delete_many` on the problems, then `delete_one` on the
+      user; a failure (or a crash) between the two leaves an account without problems - not modelled as
+      a failure; the INTERLEAVING of the two commands with other requests is modelled (§7,
+      `delete_add_race_orphan`).
+    * **session TTL, cookie key per server start** (main.rs:47-84): a cookie never expires in the model and
+      there is one server start; an expired / undecodable cookie is the same as no cookie.
+    * **salt generation** is outside the model: the salt is a request parameter (see "salts" below);
+      nothing is assumed or proved about randomness, nor about argon2 beyond the stated hash laws. -/
 namespace C17
 open ServerM
 
@@ -125,7 +164,12 @@ theorem isolation (E : Env T H A R) (v : T) : ∀ (es : List (Event T)) (st : St
     exact event_others_untouched E st e v h.1
 
 /-- the same at command granularity: any number of requests in flight, their commands interleaved
-by an arbitrary schedule; if none of them acts for or mentions `v`, the problems of `v` stay put -/
+by an arbitrary schedule; if none of them acts for or mentions `v`, the problems of `v` stay put.
+(Instance: `thsX` in §7 — three handler programs of the model, hypothesis from `handler_owner_only`, every
+database, every schedule.  `v ∉ names` also excludes the unused name proposal of an authenticated `add`,
+see the header.  In the full concurrent model `ServerCmd` the corresponding statements are
+`command_others_untouched` / `isolation_all_schedules`; for RESPONSES `responses_from_own_finds` and
+`response_determined_by_own_results`.) -/
 theorem isolation_commands (v : T) : ∀ (sched : List Nat) (db : Db T H A R) (ths : List (Thread T H A R)),
     (∀ th ∈ ths, ∃ jar U names, U ≠ some v ∧ v ∉ names ∧ AllCmds (Owned jar U names) (fun _ => True) th.prog) →
     ownedBy v (crun db ths sched).1 = ownedBy v db := by
@@ -250,6 +294,19 @@ theorem noop_event_unobservable (E : Env T H A R) (st : State T H A R) (e : Even
   cases (stepEv E st e).2 with
   | none => simp [obs]
   | some r => simp [obs, Ne.symm hj]
+
+/-- … and the same for an event ANYWHERE in the history (not only at its head): if the event after the
+prefix `pre` leaves the state it is executed in as it is, then removing it changes neither the final
+state nor what any jar other than its own (`obs`) / any set of jars not containing its own (`obsJ`)
+observes.  By `mentionNoopB_sound` this applies to every `register v` / `update → v` of somebody else
+against the existing account `v` and to every failed `login v`. -/
+theorem noop_event_unobservable_anywhere (E : Env T H A R) (st : State T H A R) (pre post : List (Event T)) (e : Event T)
+    (h : (stepEv E (runAll E st pre).1 e).1 = (runAll E st pre).1) :
+    (runAll E st (pre ++ e :: post)).1 = (runAll E st (pre ++ post)).1 ∧
+    (∀ J : Nat → Bool, J e.jar = false →
+      obsJ J (runAll E st (pre ++ e :: post)).2 = obsJ J (runAll E st (pre ++ post)).2) ∧
+    (∀ j, j ≠ e.jar → obs j (runAll E st (pre ++ e :: post)).2 = obs j (runAll E st (pre ++ post)).2) :=
+  noop_event_unobservable_mid E st pre post e h
 
 /-! ### salts
 
@@ -469,10 +526,12 @@ own events happened.
 This is the property's "no account name is re-used while sessions/tasks of its previous owner
 exist".  Partial w.r.t. "apart from account names being unique, each user's observable history is
 what it would be if that user were alone":
-* name-uniqueness conflicts (somebody trying to take a name that is in use: the permitted `409`
-  difference) are excluded by the hypothesis instead of being treated as permitted differences
-  (treated separately: `mentions_only_harmless` + `noop_event_unobservable` — such an event changes
-  nothing but the response to its own jar; the two results are not yet merged into one statement);
+* name-uniqueness conflicts — the mentions of a name that is in use by the other side: `register v`
+  (409), `update → v` (409), a failed `login v` (400), an unauthenticated `add` whose generated name
+  is taken (500) — are excluded by the hypothesis of THIS statement instead of being treated as
+  permitted differences.  `noninterference_jars_conflicts` below permits them to the OTHERS (merging
+  `mentions_only_harmless` + `noop_event_unobservable` into the statement); for conflicts caused by
+  the user himself and for the full text see `noninterference_statement` / `noninterference_full`;
 * a user is a cookie jar here; two jars logging into the same account are one user of the property
   and are excluded by the hypothesis of THIS statement - `noninterference_jars` below removes that
   restriction (a user = any set of cookie jars);
@@ -508,7 +567,8 @@ task events, what the user observes - the responses to the requests of ALL his j
 with the jar it went to - is exactly what he would observe if only the events of his jars happened.
 `noninterference_partial` is the instance `J = {j}` (`noninterference_partial_from_jars`). Still
 partial w.r.t. the property text in the two other respects listed at `noninterference_partial`
-(name-uniqueness conflicts are excluded by the hypothesis; requests are atomic). -/
+(name-uniqueness conflicts are excluded by the hypothesis — weakened in `noninterference_jars_conflicts`;
+requests are atomic); the full text is `noninterference_statement`. -/
 theorem noninterference_jars (E : Env T H A R) (J : Nat → Bool) (es : List (Event T))
     (h : DisciplinedJ E J (fun _ => none) {} es) :
     obsJ J (runAll E {} es).2 = obsJ J (runAll E {} (es.filter (fun e => J e.jar))).2 :=
@@ -555,7 +615,106 @@ theorem noninterference_partial_from_jars (E : Env T H A R) (j : Nat) (es : List
   have := noninterference_jars E (fun k => decide (k = j)) es (disciplinedJ_of_disciplined E j es _ _ h)
   exact congrArg (List.map (·.2)) this
 
+/-- **noninterference_jars_conflicts** (name conflicts caused by the OTHERS are permitted differences).
+The discipline `DisciplinedJ'` is `DisciplinedJ` except that an event of a jar outside `J` that leaves
+the server state as it is — `ServerM.mentionNoopB_sound`: a `register v` or `update → v` against an
+existing account `v` (answered `409 name taken`), a failed `login v` (400/404), whatever `v` is, in
+particular an account of the user `J` — is ALWAYS allowed and claims nothing.  The conclusion is that
+of `noninterference_jars`: what the user observes on all his jars is exactly what he would observe if
+only the events of his jars happened; the only observable effect of such a conflict is the response
+to the jar that caused it.  `noninterference_jars` is the special case without such events
+(`ServerM.disciplinedJ'_of_disciplinedJ`).  Instance: `histX1_alice` below (bob tries a password on
+alice's account — `DisciplinedJ` fails there, `histX1_not_disciplinedJ`). -/
+theorem noninterference_jars_conflicts (E : Env T H A R) (J : Nat → Bool) (es : List (Event T))
+    (h : DisciplinedJ' E J (fun _ => none) {} es) :
+    obsJ J (runAll E {} es).2 = obsJ J (runAll E {} (es.filter (fun e => J e.jar))).2 :=
+  nonint_dynJ' E J es (fun _ => none) {} {} ⟨DbSim.refl .., fun _ _ => rfl⟩
+    ⟨(by intro k _ u hu; cases hu), (by intro k _ u hu; cases hu), (by intro t ht; cases ht)⟩
+    ⟨(by intro k _ u hu; cases hu), (by intro k _ u hu; cases hu), (by intro t ht; cases ht)⟩
+    ⟨(by intro u hu; cases hu), (by intro p hp; cases hp), (by intro i hi; cases hi), (fun _ _ => rfl),
+     (by intro t ht; cases ht)⟩ h
+
+/-- **clause (2) of `noninterference_statement`.**  Under the discipline of the full statement
+(`DisciplinedF`: only name re-use while something of the previous owner exists, and logging in to the other
+side's account, are excluded) with conflicts permitted to the OTHERS (`ownConfl = false`) — every
+`register v`, `update → v`, failed `login v` against an existing account of the user `J`, every
+unauthenticated `add` whose generated name is an account of `J`, every authenticated `add` whose unused
+name proposal is an account of `J` (`ghost = true`) — the user's observations on all his jars equal those
+of the run pruned to his events.  Proof: every such conflict is a no-op on the whole state
+(`ServerM.conflict_noop`) or an authenticated `add`, which does not depend on its proposal
+(`ServerM.stepEv_deghost`); hence `DisciplinedJ'` (`ServerM.disciplinedJ'_of_disciplinedF`).
+Instance: `histX4_bob`. -/
+theorem noninterference_conflicts_of_others (E : Env T H A R) (J : Nat → Bool) (ghost : Bool) (es : List (Event T))
+    (h : DisciplinedF E J false ghost (fun _ => none) {} es) :
+    obsJ J (runAll E {} es).2 = obsJ J (runAll E {} (es.filter (fun e => J e.jar))).2 :=
+  noninterference_jars_conflicts E J es (disciplinedJ'_of_disciplinedF E J ghost es _ _ h)
+
 end
+
+/-- **noninterference_statement — the FULL-strength clause** (proved: `noninterference_full`).
+"Apart from account names being unique, each user's observable history is what it would be if that
+user were alone", for every history of the atomic model, every instance of the parameters and every
+user = set `J` of cookie jars (several devices / sessions of one person).
+
+*Hypothesis* (`ServerM.DisciplinedF`): only the property's own proviso "no account name is re-used while
+sessions / tasks of its previous owner exist" (necessary: `stale_cookie_interferes`,
+`late_write_interferes`), and nobody passes the credential check of an account of the other side
+(who does, IS that user).  Every other mention of a name that is in use by the other side (a CONFLICT)
+is allowed: `register v`, `update → v`, a failed `login v`, a generated temporary name that is taken,
+the unused name proposal of an authenticated `add` (fourth argument `ghost = true`) — by the others
+against the user's names (third argument `ownConfl = false`) and also by the user against the others'
+names (`ownConfl = true`).  A conflicting mention claims nothing.
+
+*Conclusion.* (1) What the user observes in the full run is EXACTLY the alone run with reserved names
+(`ServerM.runRsv`): the user's events only, executed on a state that holds nothing of anybody else
+except that the account names (user records) the others hold at that moment are taken.  So the
+permitted differences to the plain pruned run are exactly the consequences of name uniqueness: the
+user's own `register v` / `update → v` is answered 409 instead of 200, his `login v` 400 instead of
+404, his unauthenticated `add` 500 when the generated name is held by somebody else — and what follows
+from THAT request having failed; a foreign event that takes a free name that the user later tries to
+take changes the status of that request of the user and nothing else.
+(2) If only the others cause conflicts, there is no difference at all: full run = pruned run.
+
+*Proved:* all of it — `noninterference_full` (clause (1): `noninterference_reserved_names`, by an
+unwinding argument in which every conflict is either a no-op on the state, `ServerM.conflict_noop`, with
+a response that depends only on the record found under the contested name, `ServerM.conflict_resp`, or
+an authenticated `add`, which does not depend on its proposal, `ServerM.stepEv_deghost`; clause (2):
+`noninterference_conflicts_of_others`, more generally `noninterference_jars_conflicts` for any foreign
+event that leaves the state unchanged).  Special cases proved earlier: without any conflict
+`noninterference_jars` (several jars) and `noninterference_partial` (one jar); removal of a single
+no-op event anywhere in ANY history, no discipline needed: `noop_event_unobservable_anywhere`.
+*What this statement does not cover:* command granularity (requests are atomic here; what is proved for
+all command interleavings is isolation and the provenance / functional dependence of responses, §7,
+not noninterference — and `add_race_duplicate`, `delete_add_race_orphan` show that single-user
+check-then-act races exist at that granularity); the simplifications of the model listed in the header
+of this file; a user who knows the password of an account of the other side. -/
+def noninterference_statement : Prop :=
+  ∀ (T H A R : Type) [DecidableEq T] (E : Env T H A R) (J : Nat → Bool) (es : List (Event T)),
+    (DisciplinedF E J true true (fun _ => none) {} es →
+      obsJ J (runAll E {} es).2 = runRsv E J {} {} es) ∧
+    (DisciplinedF E J false true (fun _ => none) {} es →
+      obsJ J (runAll E {} es).2 = obsJ J (runAll E {} (es.filter (fun e => J e.jar))).2)
+
+section
+variable {T H A R : Type} [DecidableEq T]
+
+/-- **clause (1): the alone run with reserved names.**  Conflicts are permitted to BOTH sides
+(`ownConfl = true`).  Instances: `histX3_alice`, `histX3_bob`. -/
+theorem noninterference_reserved_names (E : Env T H A R) (J : Nat → Bool) (ghost : Bool) (es : List (Event T))
+    (h : DisciplinedF E J true ghost (fun _ => none) {} es) :
+    obsJ J (runAll E {} es).2 = runRsv E J {} {} es :=
+  nonint_rsv E J ghost es (fun _ => none) {} {} ⟨DbSim.refl .., fun _ _ => rfl⟩
+    ⟨(by intro k _ u hu; cases hu), (by intro k _ u hu; cases hu), (by intro t ht; cases ht)⟩
+    ⟨(by intro k _ u hu; cases hu), (by intro k _ u hu; cases hu), (by intro t ht; cases ht)⟩
+    ⟨(by intro u hu; cases hu), (by intro p hp; cases hp), (by intro i hi; cases hi), (fun _ _ => rfl),
+     (by intro t ht; cases ht)⟩ h
+
+end
+
+/-- **noninterference_full: the full statement holds.** -/
+theorem noninterference_full : noninterference_statement := by
+  intro T H A R _ E J es
+  exact ⟨noninterference_reserved_names E J true es, noninterference_conflicts_of_others E J true es⟩
 
 /-! ## 6. non-vacuity and the counterexamples without the hypothesis -/
 
@@ -717,6 +876,212 @@ example : ((obsJ jars01 (runAll E0 {} histTwoJars).2).map (·.2.body))[4]? =
 example : ((obsJ jars01 (runAll E0 {} histTwoJars).2).map (·.2.body)).getLast? =
     some (.problem ⟨5, 9, .naive, .some 9, { ground := .some 9 }, []⟩) := by decide
 
+/-! ### a rich disciplined history, and the name conflicts as permitted differences -/
+
+/-- three users, two devices for alice, the same problem names, password change, rename, account
+deletion, re-use of a name after deletion and after a rename.  alice = account 1 (jars 0, 1),
+bob = account 2 (jar 2), carol = jar 3, who first takes the freed name 1 and later bob's old name 2 -/
+def histBig : List (Event Nat) :=
+  [ .req ⟨0, .register 1 7 0⟩, .req ⟨2, .register 2 8 1⟩, .req ⟨0, .login 1 7⟩, .req ⟨1, .login 1 7⟩,
+    .req ⟨2, .login 2 8⟩,
+    .req ⟨0, .add 5 (some 9) none .naive 200 201⟩, .req ⟨2, .add 5 (some 4) none .naive 300 301⟩,
+    .finish 0 0, .write 0 0, .finish 2 0, .write 2 0,
+    .req ⟨1, .update 1 17 5⟩,            -- password change on device 1 (no rename)
+    .req ⟨0, .get 5⟩,
+    .req ⟨1, .update 11 17 6⟩,           -- rename 1 -> 11 on device 1; device 0 keeps the stale cookie `1`
+    .req ⟨1, .list⟩,
+    .req ⟨0, .list⟩,                     -- stale cookie on device 0: sees nothing
+    .req ⟨0, .login 11 17⟩,              -- device 0 logs in again under the new name
+    .req ⟨3, .register 1 9 2⟩,           -- carol takes the freed name 1
+    .req ⟨3, .login 1 9⟩, .req ⟨3, .add 5 (some 6) none .naive 400 401⟩, .finish 3 0, .write 3 0,
+    .req ⟨2, .deleteAccount⟩,            -- bob leaves
+    .req ⟨3, .update 2 9 3⟩,             -- carol renames herself to bob's old name 2
+    .req ⟨3, .get 5⟩, .req ⟨0, .get 5⟩, .req ⟨1, .solve 5 .ground⟩, .finish 1 0, .write 1 0, .req ⟨0, .get 5⟩ ]
+
+def jarsAll : List Nat := [0, 1, 2, 3]
+def jA : Nat → Bool := fun k => decide (k = 0 ∨ k = 1)
+def jB : Nat → Bool := fun k => decide (k = 2)
+def jC : Nat → Bool := fun k => decide (k = 3)
+
+theorem histBig_jars : ∀ e ∈ histBig, e.jar ∈ jarsAll := by decide
+/-- `DisciplinedJ` holds in `histBig` for each of the three users (Bool checker `discB` + its soundness) -/
+theorem histBig_disciplined :
+    DisciplinedJ E0 jA (fun _ => none) {} histBig ∧ DisciplinedJ E0 jB (fun _ => none) {} histBig ∧
+    DisciplinedJ E0 jC (fun _ => none) {} histBig :=
+  ⟨discB_sound E0 jA jarsAll histBig _ _ (fun _ _ => rfl) histBig_jars (by decide),
+   discB_sound E0 jB jarsAll histBig _ _ (fun _ _ => rfl) histBig_jars (by decide),
+   discB_sound E0 jC jarsAll histBig _ _ (fun _ _ => rfl) histBig_jars (by decide)⟩
+-- the conclusion of `noninterference_jars` instantiated for alice's two devices, and what she sees last
+example : obsJ jA (runAll E0 {} histBig).2 = obsJ jA (runAll E0 {} (histBig.filter (fun e => jA e.jar))).2 :=
+  noninterference_jars E0 jA histBig histBig_disciplined.1
+example : (obsJ jA (runAll E0 {} histBig).2).getLast?.map (fun x => (x.1, x.2.body)) =
+    some (0, .problem ⟨5, 9, .naive, .some 9, { ground := .some 9 }, []⟩) := by decide
+
+/-- **X1: bob (jar 2) tries a wrong password on alice's account.** -/
+def histX1 : List (Event Nat) :=
+  [ .req ⟨0, .register 1 7 0⟩, .req ⟨0, .login 1 7⟩, .req ⟨2, .login 1 99⟩, .req ⟨0, .list⟩ ]
+
+/-- `DisciplinedJ` excludes `histX1` (for alice; the same for bob) … -/
+theorem histX1_not_disciplinedJ : ¬ DisciplinedJ E0 jA (fun _ => none) {} histX1 := by
+  intro h
+  rcases h.2.2.1 1 (by simp [evNames, reqNames]) with h1 | h1
+  · revert h1; decide
+  · exact h1.users ⟨1, some (0, 7)⟩ (by decide) rfl
+
+/-- … the weaker discipline `DisciplinedJ'` holds: bob's failed login is a no-op on the state … -/
+theorem histX1_disciplinedJ' : DisciplinedJ' E0 jA (fun _ => none) {} histX1 :=
+  discB'_sound E0 jA jarsAll histX1 _ _ (fun _ _ => rfl) (by decide) (by decide)
+
+/-- … and alice's conclusion follows from the THEOREM `noninterference_jars_conflicts` -/
+theorem histX1_alice :
+    obsJ jA (runAll E0 {} histX1).2 = obsJ jA (runAll E0 {} (histX1.filter (fun e => jA e.jar))).2 :=
+  noninterference_jars_conflicts E0 jA histX1 histX1_disciplinedJ'
+-- bob's own view differs from his alone run (400 wrong password instead of 404 no such user): the
+-- permitted difference, a consequence of HIS mention of a name in use
+example : obsJ jB (runAll E0 {} histX1).2 ≠ obsJ jB (runAll E0 {} (histX1.filter (fun e => jB e.jar))).2 := by decide
+-- `noop_event_unobservable_anywhere` on the same history: bob's event in the MIDDLE is removed
+example : obsJ jA (runAll E0 {} (histX1.take 2 ++ .req ⟨2, .login 1 99⟩ :: [.req ⟨0, .list⟩])).2 =
+    obsJ jA (runAll E0 {} (histX1.take 2 ++ [.req ⟨0, .list⟩])).2 :=
+  (noop_event_unobservable_anywhere E0 {} (histX1.take 2) [.req ⟨0, .list⟩] (.req ⟨2, .login 1 99⟩)
+    (mentionNoopB_sound E0 _ _ (by decide))).2.1 jA (by decide)
+
+/-- **X2: the 409 conflict.** bob tries to register alice's name. -/
+def histX2 : List (Event Nat) :=
+  [ .req ⟨0, .register 1 7 0⟩, .req ⟨2, .register 1 8 1⟩, .req ⟨0, .login 1 7⟩ ]
+-- alice: from the theorem; bob: his view differs from his alone run (409 instead of 200)
+example : obsJ jA (runAll E0 {} histX2).2 = obsJ jA (runAll E0 {} (histX2.filter (fun e => jA e.jar))).2 :=
+  noninterference_jars_conflicts E0 jA histX2
+    (discB'_sound E0 jA jarsAll histX2 _ _ (fun _ _ => rfl) (by decide) (by decide))
+example : obsJ jB (runAll E0 {} histX2).2 ≠ obsJ jB (runAll E0 {} (histX2.filter (fun e => jB e.jar))).2 := by decide
+
+/-- **X3: conflicts on both sides.** bob fails to take alice's name, alice's second device fails to
+register / log in to / rename to bob's name 2 and fails to create a temporary account under the
+generated name 2; bob fails to rename himself to alice's name; after bob has deleted his account alice's
+second device takes the name 2 -/
+def histX3 : List (Event Nat) :=
+  [ .req ⟨0, .register 1 7 0⟩, .req ⟨2, .register 1 8 1⟩, .req ⟨0, .login 1 7⟩, .req ⟨2, .register 2 8 1⟩,
+    .req ⟨2, .login 2 8⟩, .req ⟨0, .add 5 (some 9) none .naive 200 201⟩, .req ⟨1, .register 2 5 5⟩,
+    .req ⟨0, .update 2 7 3⟩, .req ⟨1, .login 2 5⟩, .req ⟨2, .add 5 (some 4) none .naive 300 301⟩, .finish 0 0, .write 0 0,
+    .req ⟨2, .update 1 8 2⟩, .req ⟨1, .add 6 (some 3) none .naive 2 77⟩, .req ⟨1, .list⟩, .req ⟨0, .get 5⟩, .req ⟨2, .list⟩,
+    .finish 2 0, .write 2 0, .req ⟨2, .deleteAccount⟩, .req ⟨1, .register 2 5 5⟩, .req ⟨1, .login 2 5⟩, .req ⟨1, .list⟩]
+
+/-- clause (1) of `noninterference_statement` evaluated: on `histX2` / `histX3` every user's observations
+are exactly the alone run with reserved names (here by `decide`; from the theorem: `histX3_alice`,
+`histX3_bob`), while alice's differ from her plain alone run in `histX3` (statuses 409, 400, 500, 401
+instead of 200, 200, 200, 200 …) -/
+theorem runRsv_examples :
+    obsJ jB (runAll E0 {} histX2).2 = runRsv E0 jB {} {} histX2 ∧
+    obsJ jA (runAll E0 {} histX3).2 = runRsv E0 jA {} {} histX3 ∧
+    obsJ jB (runAll E0 {} histX3).2 = runRsv E0 jB {} {} histX3 ∧
+    (obsJ jA (runAll E0 {} histX3).2).map (fun x => (x.1, x.2.status)) =
+      [(0, 200), (0, 200), (0, 200), (1, 409), (0, 409), (1, 400), (1, 500), (1, 401), (0, 200), (1, 200), (1, 200), (1, 200)] ∧
+    (obsJ jA (runAll E0 {} (histX3.filter (fun e => jA e.jar))).2).map (fun x => (x.1, x.2.status)) =
+      [(0, 200), (0, 200), (0, 200), (1, 200), (0, 409), (1, 200), (1, 200), (1, 200), (0, 200), (1, 409), (1, 200), (1, 200)] := by
+  refine ⟨by decide, by decide, by decide, by decide, by decide⟩
+
+/-- the hypothesis of clause (1) holds in `histX3` for both users (checker `discF` + soundness), while the
+hypothesis of clause (2) fails for both (each of them causes conflicts himself) -/
+theorem histX3_disciplinedF :
+    DisciplinedF E0 jA true false (fun _ => none) {} histX3 ∧ DisciplinedF E0 jB true false (fun _ => none) {} histX3 :=
+  ⟨discF_sound E0 jA jarsAll true false histX3 _ _ (fun _ _ => rfl) (by decide) (by decide),
+   discF_sound E0 jB jarsAll true false histX3 _ _ (fun _ _ => rfl) (by decide) (by decide)⟩
+example : discF E0 jA jarsAll false true (fun _ => none) {} histX3 = false ∧
+    discF E0 jB jarsAll false true (fun _ => none) {} histX3 = false := by decide
+/-- alice's and bob's conclusions from the THEOREM `noninterference_reserved_names` -/
+theorem histX3_alice : obsJ jA (runAll E0 {} histX3).2 = runRsv E0 jA {} {} histX3 :=
+  noninterference_reserved_names E0 jA false histX3 histX3_disciplinedF.1
+theorem histX3_bob : obsJ jB (runAll E0 {} histX3).2 = runRsv E0 jB {} {} histX3 :=
+  noninterference_reserved_names E0 jB false histX3 histX3_disciplinedF.2
+
+/-- **X4: all four kinds of conflicts, caused by alice's second device against bob.** `histX3` without
+bob's own conflicts: alice's device 1 fails to register 2 (409), alice fails to rename herself to 2 (409),
+device 1 fails to log in as 2 (400) and to get the temporary account 2 (500) -/
+def histX4 : List (Event Nat) :=
+  [ .req ⟨0, .register 1 7 0⟩, .req ⟨0, .login 1 7⟩, .req ⟨2, .register 2 8 1⟩,
+    .req ⟨2, .login 2 8⟩, .req ⟨0, .add 5 (some 9) none .naive 200 201⟩, .req ⟨1, .register 2 5 5⟩,
+    .req ⟨0, .update 2 7 3⟩, .req ⟨1, .login 2 5⟩, .req ⟨2, .add 5 (some 4) none .naive 300 301⟩, .finish 0 0, .write 0 0,
+    .req ⟨1, .add 6 (some 3) none .naive 2 77⟩, .req ⟨1, .list⟩, .req ⟨0, .get 5⟩, .req ⟨2, .list⟩,
+    .finish 2 0, .write 2 0, .req ⟨2, .get 5⟩]
+
+theorem histX4_disciplinedF : DisciplinedF E0 jB false false (fun _ => none) {} histX4 :=
+  discF_sound E0 jB jarsAll false false histX4 _ _ (fun _ _ => rfl) (by decide) (by decide)
+/-- bob's conclusion from the THEOREM `noninterference_conflicts_of_others` (`DisciplinedJ` fails: alice's
+device 1 mentions bob's name 2 four times while account 2 exists) -/
+theorem histX4_bob :
+    obsJ jB (runAll E0 {} histX4).2 = obsJ jB (runAll E0 {} (histX4.filter (fun e => jB e.jar))).2 :=
+  noninterference_conflicts_of_others E0 jB false histX4 histX4_disciplinedF
+example : discB E0 jB jarsAll (fun _ => none) {} histX4 = false := by decide
+example : ((runAll E0 {} histX4).2.map (fun x => (x.1, x.2.status))) =
+    [(0, 200), (0, 200), (2, 200), (2, 200), (0, 200), (1, 409), (0, 409), (1, 400), (2, 200), (1, 500), (1, 401),
+     (0, 200), (2, 200), (2, 200)] := by decide
+
+/-- **X5: ghost proposals in conflict, on both sides.** bob's authenticated `add` carries the unused name
+proposal 1 (alice's account), alice's the proposal 2 (bob's account); alice's second device then fails to
+register bob's name -/
+def histX5 : List (Event Nat) :=
+  [ .req ⟨0, .register 1 7 0⟩, .req ⟨0, .login 1 7⟩, .req ⟨2, .register 2 8 1⟩, .req ⟨2, .login 2 8⟩,
+    .req ⟨2, .add 5 (some 4) none .naive 1 301⟩, .req ⟨0, .add 5 (some 9) none .naive 2 201⟩,
+    .finish 0 0, .write 0 0, .finish 2 0, .write 2 0, .req ⟨1, .register 2 5 5⟩, .req ⟨0, .get 5⟩, .req ⟨2, .get 5⟩ ]
+
+theorem histX5_disciplinedF : DisciplinedF E0 jA true true (fun _ => none) {} histX5 :=
+  discF_sound E0 jA jarsAll true true histX5 _ _ (fun _ _ => rfl) (by decide) (by decide)
+-- without `ghost` the discipline fails; alice's conclusion from the theorem; the two `get 5` show each his own code
+example : discF E0 jA jarsAll true false (fun _ => none) {} histX5 = false := by decide
+theorem histX5_alice : obsJ jA (runAll E0 {} histX5).2 = runRsv E0 jA {} {} histX5 :=
+  noninterference_reserved_names E0 jA true histX5 histX5_disciplinedF
+example : ((runAll E0 {} histX5).2.drop 6).map (fun x => (x.1, x.2.status, x.2.body)) =
+    [(1, 409, .msg .nameTaken), (0, 200, .problem ⟨5, 9, .naive, .some 9, {}, []⟩),
+     (2, 200, .problem ⟨5, 4, .naive, .some 4, {}, []⟩)] := by decide
+
+/-! ### credentials on a history with password change, rename, temporary account, deletion -/
+
+def histCred : List (Event Nat) :=
+  [ .req ⟨0, .register 1 7 0⟩, .req ⟨0, .login 1 7⟩, .req ⟨0, .update 1 8 1⟩,  -- password change
+    .req ⟨0, .update 3 9 2⟩,                                                   -- rename + new password
+    .req ⟨4, .add 5 (some 9) none .naive 50 51⟩,                                -- temporary account 50
+    .req ⟨2, .register 2 6 3⟩, .req ⟨2, .login 2 6⟩, .req ⟨2, .deleteAccount⟩ ]
+-- the observer's bookkeeping of `login_iff`: old name 1 gone, account 3 has password 9, the temporary
+-- account 50 and the deleted account 2 have none
+example : let g := (runCred E0 {} (fun _ => none) histCred).2
+    (g 1, g 3, g 50, g 2) = (none, some 9, none, none) := by decide
+-- `runCred` runs the same states as `runAll`
+example : (runCred E0 {} (fun _ => none) histCred).1.db.users = (runAll E0 {} histCred).1.db.users := by decide
+-- … and the logins agree with it, as `login_iff` says: old name / old passwords / temporary / deleted fail
+example : [(1,7),(1,8),(3,8),(3,9),(50,9),(2,6)].map (fun (up : Nat × Nat) =>
+    (step E0 (runCred E0 {} (fun _ => none) histCred).1 ⟨9, .login up.1 up.2⟩).2.status) = [404, 404, 400, 200, 400, 404] := by
+  decide
+example : (step E0 (runCred E0 {} (fun _ => none) histCred).1 ⟨9, .login 3 9⟩).2.status = 200 :=
+  (login_iff E0 E0_verify histCred 9 3 9 (by decide) (by decide)).mpr (by decide)
+-- a temporary account sets a password through `update` and can log in from then on
+example : (runCred E0 {} (fun _ => none) (histCred ++ [.req ⟨4, .update 50 4 7⟩])).2 50 = some 4 := by decide
+
+/-- an instance with `H = T` for `stored_not_plaintext`: the hash of password `p` under salt `s` is `p + s + 1` -/
+def E1 : Env Nat Nat Nat Nat where
+  emp := 0
+  hash := fun s p => p + s + 1
+  verify := fun h p => decide (p < h)
+  parse := fun _ code => .ok (code, code)
+  solve := fun a _ => .ok a
+theorem E1_hne : ∀ s p, E1.hash s p ≠ p := by intro s p; simp [E1]; omega
+-- `stored_not_plaintext` instantiated, and its content on this instance: stored 10 and 12, passwords 7 and 8
+example := stored_not_plaintext E1 E1_hne [.req ⟨0, .register 1 7 2⟩, .req ⟨1, .register 2 8 3⟩]
+example : (runCred E1 {} (fun _ => none) [.req ⟨0, .register 1 7 2⟩, .req ⟨1, .register 2 8 3⟩]).1.db.users =
+    [⟨1, some 10⟩, ⟨2, some 12⟩] := by decide
+
+-- `same_password_distinct_salts` on `E0` (injective in the salt): two accounts, the same password 7, salts 0 and 1
+example : (step E0 (step E0 {} ⟨0, .register 1 7 0⟩).1 ⟨1, .register 2 7 1⟩).1.db.users =
+      ({} : State Nat (Nat × Nat) Nat Nat).db.users ++ [⟨1, some (E0.hash 0 7)⟩, ⟨2, some (E0.hash 1 7)⟩] ∧
+    E0.hash 0 7 ≠ E0.hash 1 7 :=
+  same_password_distinct_salts E0 (by intro s s' p h; simpa [E0] using congrArg Prod.fst h)
+    {} 0 1 1 2 7 0 1 (by decide) (by decide) (by decide)
+
+-- `noop_event_unobservable` + `mentions_only_harmless`: bob's `register 1` against alice's account can be dropped
+example (es : List (Event Nat)) :
+    ∀ j, j ≠ 2 → obs j (runAll E0 (runAll E0 {} [.req ⟨0, .register 1 7 0⟩, .req ⟨0, .login 1 7⟩]).1 (.req ⟨2, .register 1 9 3⟩ :: es)).2 =
+      obs j (runAll E0 (runAll E0 {} [.req ⟨0, .register 1 7 0⟩, .req ⟨0, .login 1 7⟩]).1 es).2 :=
+  (noop_event_unobservable E0 _ (.req ⟨2, .register 1 9 3⟩) es
+    ((mentions_only_harmless E0 _ 2 1 9 3 (by unfold hasAccount; decide) (by decide)).1.1)).2
+
 /-- **Counterexample 1 (stale cookie).** Alice is logged in on two devices (jars 0 and 1) and deletes
 her account on the first; somebody else (jar 2) registers the name `alice` and adds a problem; the
 second device's cookie still says `alice`, and its `delete account` removes the new owner's problems
@@ -834,6 +1199,25 @@ theorem responses_from_own_finds (E : Env T H A R) (sched : List (Act T)) :
   have hu := rinv.ret e he p h2
   refine ⟨e, he, p, ts, by rw [h1]; rfl, h2, h3, hu, ?_⟩
   exact (log_carries_identity E sched e he).2 _ hu
+
+/-- **responses under every schedule, functional dependence.**  `responses_from_own_finds` says where the
+problem DATA of a response comes from.  This says what the response as a whole DEPENDS on: in every
+reachable state of the concurrent model, the remaining program `f.prog` of every request in flight —
+its response `r` once `f.prog = .ret r`, which `deliver` then hands out unchanged — is the handler
+program of that request (its jar, the identity decoded from its cookie at arrival, its payload) fed
+with the list `rs` of results the database returned to the commands THIS request issued (`Fed`), and is
+determined by these (`Fed.det`): two runs, under whatever schedules and whatever the other requests in
+flight do, in which the request's own commands return the same results end in the same response.  And
+all problem documents among those results carry the user name in the filter of their command, which is
+the request's identity (`log_carries_identity`) — a handler never sees a document of another user. -/
+theorem response_determined_by_own_results (E : Env T H A R) (sched : List (Act T)) :
+    ∀ f ∈ (runC E {} sched).pool, ∃ rs : List (Answer T H A R),
+      Fed (handler E f.jar f.id f.req) rs f.prog ∧
+      (∀ a ∈ rs, ∀ p ∈ foundBy a.1 a.2, probUser a.1 = some p.username) ∧
+      (∀ q, Fed (handler E f.jar f.id f.req) rs q → q = f.prog) := by
+  intro f hf
+  obtain ⟨rs, h1, h2⟩ := FedInv.run E sched {} (FedInv.init E) f hf
+  exact ⟨rs, h1, h2, fun q hq => Fed.det hq h1⟩
 
 /-- **unauthenticated requests obtain no problem data, under every schedule**: in every reachable state,
 a request in flight that arrived without a session (`id = none`) and has reached its response carries no
@@ -989,6 +1373,12 @@ example : ((runC E0 (runC E0 aliceIn addRace) [.arrive ⟨0, .get 5⟩, .cmd 0, 
     (fun e => if e.returned = [] then none else some (e.src.actor, e.returned.map (fun p => (p.username, p.name, p.code))))) =
     [(some 1, [(1, 5, 9)])] := by decide
 
+-- `response_determined_by_own_results` is about a non-empty pool here: alice's `get 5` in flight after its
+-- first command (the `find_one`, which returned her document), next to an unauthenticated `get 5` of jar 3
+example : ((runC E0 (runC E0 aliceIn addRace) [.arrive ⟨0, .get 5⟩, .arrive ⟨3, .get 5⟩, .cmd 0]).pool.map
+    (fun f => (f.jar, f.id, f.prog matches .cmd (.rTasks 1 5) _, f.prog matches .ret ⟨401, _, _⟩))) =
+    [(0, some 1, true, false), (3, none, false, true)] := by decide
+
 /-- **a third race of the same kind: two concurrent `solve`s of one strategy.**  `solve_adf_problem`
 reads the document and the `currently_running` set and spawns its task afterwards (in the Rust the
 guard enters the set even later, on the blocking thread); two concurrent solves both pass the check,
@@ -1030,6 +1420,29 @@ example : (regRace [.cmd 0, .cmd 1, .cmd 1, .cmd 0]).db.users = [⟨1, some (1, 
 -- non-vacuity of `credentials_all_schedules`: both inserts are in the log, each with the hash of its own request
 example : ((regRace [.cmd 0, .cmd 1, .cmd 1, .cmd 0]).log.filterMap (fun e => userDoc e.cmd)) =
     [⟨1, some (1, 8)⟩, ⟨1, some (0, 7)⟩] := by decide
+
+/-- three requests in flight: bob (identity 2) deletes his account, carol (identity 3) adds problem 5, bob
+renames himself to 4 — none acts for or mentions account 1 -/
+def thsX : List (Thread Nat (Nat × Nat) Nat Nat) :=
+  [⟨handler E0 2 (some 2) .deleteAccount⟩, ⟨handler E0 3 (some 3) (.add 5 (some 4) none .naive 60 61)⟩,
+   ⟨handler E0 2 (some 2) (.update 4 8 1)⟩]
+
+-- non-vacuity of `isolation_commands`: its hypothesis holds for `thsX` (from `handler_owner_only`), for
+-- EVERY database and EVERY schedule; and the threads do change the database (of others)
+example (db : Db Nat (Nat × Nat) Nat Nat) (sched : List Nat) :
+    ownedBy 1 (crun db thsX sched).1 = ownedBy 1 db := by
+  apply isolation_commands 1 sched db thsX
+  intro th hth
+  simp only [thsX, List.mem_cons, List.not_mem_nil, or_false] at hth
+  rcases hth with rfl | rfl | rfl
+  · exact ⟨2, some 2, [], by decide, by decide,
+      (handler_owner_only E0 2 (some 2) .deleteAccount).mono (fun _ h => h) (fun _ _ => trivial)⟩
+  · exact ⟨3, some 3, [60], by decide, by decide,
+      (handler_owner_only E0 3 (some 3) (.add 5 (some 4) none .naive 60 61)).mono (fun _ h => h) (fun _ _ => trivial)⟩
+  · exact ⟨2, some 2, [4], by decide, by decide,
+      (handler_owner_only E0 2 (some 2) (.update 4 8 1)).mono (fun _ h => h) (fun _ _ => trivial)⟩
+example : ((crun (runC E0 aliceIn addRace).db thsX [1, 0, 1, 2, 1, 0, 2, 2]).1.problems.map (fun p => (p.username, p.name))) =
+    [(1, 5), (1, 5), (3, 5)] := by decide
 
 /-- bob (account 2) registers, logs in (jar 1) and adds problem 5 while alice's requests are in
 flight: a schedule in which alice's in-flight `add` does not move is quiet for alice -/
@@ -1104,3 +1517,21 @@ end C17
 #print axioms C17.register_race
 #print axioms C17.delete_add_race_orphan
 #print axioms C17.solve_race_two_tasks
+#print axioms C17.noop_event_unobservable_anywhere
+#print axioms C17.noninterference_jars_conflicts
+#print axioms C17.histBig_disciplined
+#print axioms C17.histX1_not_disciplinedJ
+#print axioms C17.histX1_disciplinedJ'
+#print axioms C17.histX1_alice
+#print axioms C17.runRsv_examples
+#print axioms C17.response_determined_by_own_results
+#print axioms C17.noninterference_statement
+#print axioms C17.noninterference_reserved_names
+#print axioms C17.noninterference_full
+#print axioms C17.histX3_alice
+#print axioms C17.histX5_alice
+#print axioms C17.histX3_bob
+#print axioms C17.noninterference_conflicts_of_others
+#print axioms C17.histX3_disciplinedF
+#print axioms C17.histX4_disciplinedF
+#print axioms C17.histX4_bob
